@@ -169,7 +169,7 @@ Proof.
         apply IHhs; [right; right; exact H|left; discriminate].
       * left. apply IHhs; [left|right]; apply IHe; right; exact H.
       * right; exact H.
-  - intros s x [H|[]]; exact H.
+  - intros k s x [H|[]]; exact H.
   - intros hin acc x _ [H|H]; [exfalso; apply H; reflexivity|exact H].
   - intros ty IHty nm hb IHhb rest IHrest hin acc x H _.
     (* after this handler the accumulator is acc ⊔ (this handler's exit) *)
